@@ -25,6 +25,8 @@ def gen_points(r, n, real, kind):
         else:
             p = [base[d] + (i + 1) * scale * (1 if d == i % 3 else 0.25) for d in range(3)]
         q = r.choice([-1, 1]) * r.uniform(0.1, 3)
+        if r.random() < 0.2:
+            q = r.choice([0.0, 0.0, -0.0, 1.0, -1.0, 0.5, 2.0 ** -20])      # neutral particles, unit charges, tiny charges
         pts.append([ftree.rnd(v, real) for v in p] + [ftree.rnd(q, real)])
     return pts
 
